@@ -16,3 +16,11 @@ package rsyncchecksum
 //@   modifies ghost.acc, ghost.objClock, rsyncwire.CountingReader.BytesRead, rsyncwire.CountingWriter.BytesWritten
 //@   ensures [not-a-walk-sentinel] !isSkipDir(err)
 //@   ensures [sum-of-reader] err == nil ==> bid(result) == md4Of(accApp(accEmpty, readerContent(data(r))))
+
+// The strong block checksum: MD4 over the block's bytes followed by the
+// session seed (the whole-file checksum puts the seed first).
+//@ spec func strongSum(seed: int, content: int): int = md4Of(accApp(accApp(accEmpty, content), valEnc(typeid("int32"), seed)))
+//@ func rsyncchecksum.Checksum2
+//@   modifies ghost.acc, ghost.objClock, rsyncwire.CountingWriter.BytesWritten
+//@   ensures [md4-size] len(result) == 16
+//@   ensures [block-then-seed] bid(result) == strongSum(seed, bid(buf))
